@@ -20,17 +20,13 @@ theorem translated : Bpmn.Gen.C03.replyGen.isSome = true ∧ Bpmn.Gen.C03.uncond
 /-- **the source's loop body is the kernel**, for all a, s, i -/
 theorem reply_is_source : ∀ (f : Nat → Nat → Nat → Reply), Bpmn.Gen.C03.replyGen = some f → ∀ a s i, f a s i = reply a s i := by
   intro f hf a s i
-  have : f = fun a s i =>
-      let v_rangeEnd := (i + 1)
-      let v_rangeEnd := if (v_rangeEnd == a) then s else v_rangeEnd
-      if decide (v_rangeEnd ≤ s) then (if decide (i ≥ v_rangeEnd) then Reply.complete else Reply.flows i v_rangeEnd)
-      else Reply.complete := by
-    have h := hf
-    unfold Bpmn.Gen.C03.replyGen at h
-    exact (Option.some.inj h).symm
-  subst this
+  unfold Bpmn.Gen.C03.replyGen at hf
+  injection hf with hf
+  subst hf
+  -- semantic, not syntactic: any way of writing the same case analysis over linear conditions is accepted
   unfold reply
-  simp only [decide_eq_true_eq]
+  simp only [decide_eq_true_eq, beq_iff_eq, ge_iff_le]
+  all_goals grind
 
 /-- every flow a token is handed is marked unconditional: the count of unconditional indices is the length of the slice
 (the engine model lets the released tokens leave over their flows without evaluating conditions) -/
@@ -38,21 +34,16 @@ theorem all_handed_flows_unconditional : ∀ (f : Nat → Nat → Nat → Reply)
     Bpmn.Gen.C03.replyGen = some f → Bpmn.Gen.C03.uncondGen = some g →
     ∀ a s i, (∀ lo hi, f a s i = .flows lo hi → g a s i = some (hi - lo)) ∧ (f a s i = .complete → g a s i = none) := by
   intro f g hf hg a s i
-  have h1 := (Option.some.inj (by unfold Bpmn.Gen.C03.replyGen at hf; exact hf)).symm
-  have h2 := (Option.some.inj (by unfold Bpmn.Gen.C03.uncondGen at hg; exact hg)).symm
-  subst h1 h2
+  unfold Bpmn.Gen.C03.replyGen at hf
+  unfold Bpmn.Gen.C03.uncondGen at hg
+  injection hf with hf
+  injection hg with hg
+  subst hf hg
   simp only [decide_eq_true_eq, beq_iff_eq, ge_iff_le]
-  generalize (if i + 1 = a then s else i + 1) = r
-  by_cases c1 : r ≤ s
-  · by_cases c2 : r ≤ i
-    · simp [c1, c2]
-    · simp only [c1, c2, if_true, if_false]
-      refine ⟨?_, by simp⟩
-      intro lo hi h
-      injection h with h3 h4
-      subst h3 h4
-      rfl
-  · simp [c1]
+  constructor
+  · intro lo hi
+    grind
+  · grind
 
 /-- non-vacuity and a reading aid: three waiting tokens, two outgoing flows — the first two get one flow each, the third
 is consumed -/
